@@ -84,6 +84,46 @@ def run_component(pack):
     return R, N, X, ids, est
 
 
+class _Stop(Exception):
+    pass
+
+
+def run_component_client(pack):
+    """The same scenarios through the PUBLIC client: get_estimates is run up to (and including) its get_units call, whose
+    return value is captured by a run-time wrapper.  Decides that the request's limits, blocklists, threshold and policy
+    reach the eligibility rules unchanged (a configured limit of exactly 0 included)."""
+    from elexmodel.client import ModelClient
+    from elexmodel.handlers.data.CombinedData import CombinedDataHandler
+
+    sc0 = pack[0]
+    est = "margin" if sc0["isMargin"] else "turnout"
+    pre, cur, ublock, sblock, ids = materialise(pack)
+    lim = sc0["limits"]
+    states = sorted(set(pre.postal_code) | set(cur.postal_code))
+    got = {}
+    orig = CombinedDataHandler.get_units
+
+    def spy(self_, *a, **k):
+        got["frames"] = orig(self_, *a, **k)
+        raise _Stop()
+
+    CombinedDataHandler.get_units = spy
+    try:
+        ModelClient().get_estimates(
+            cur, synth.EID, "G", [est], [0.9], sc0["thr"], "precinct", raw_config=synth.config("G", states), preprocessed_data=pre,
+            aggregates=list(sc0["levels"]) + ["unit"], save_output=[], handle_unreporting=sc0["policy"], pi_method="nonparametric",
+            model_parameters={"turnout_factor_lower": lim["loN"] / lim["loD"], "turnout_factor_upper": lim["hiN"] / lim["hiD"],
+                              "unit_blocklist": ublock, "postal_code_blocklist": sblock,
+                              "fit_margin_outlier_model": False, "fit_turnout_outlier_model": False},
+        )
+    except _Stop:
+        pass
+    finally:
+        CombinedDataHandler.get_units = orig
+    R, N, X = got["frames"]
+    return R, N, X, ids, est
+
+
 def _close(x, frac):
     x = float(x)
     if math.isnan(x) or math.isinf(x):
@@ -134,9 +174,9 @@ def compare(pack, expects, R, N, X, ids, est):
 
 
 def job(arg):
-    pack, expects = arg
+    pack, expects = arg[0], arg[1]
     try:
-        R, N, X, ids, est = run_component(pack)
+        R, N, X, ids, est = run_component_client(pack) if (len(arg) > 2 and arg[2]) else run_component(pack)
     except Exception as e:  # noqa: BLE001
         import traceback
 
